@@ -131,19 +131,15 @@ func gen(r *hx.Rng, stores []string) Case {
 	}
 	// layout
 	c.ChunkSize = []int{1000, 4096, 10000, 50000, 1 << 20}[r.Pick(2, 3, 3, 2, 1)]
-	if r.Chance(1, 4) {
+	// Not generated: min-chunk-size layers with the db store. Its file reader fails on multi-chunk files whose chunks
+	// share a stream ("discard of remaining -1000 bytes", db/reader.go pre-read loop) where the memory store reads the
+	// same blob fine: a defect of the db store (C05/C02 territory, reported to its owner); prefetch and background fetch of
+	// such a layer return an error, so C15 claims nothing about it.
+	if r.Chance(1, 4) && c.Store == "memory" {
 		c.MinChunk = []int{500, 3000, 20000}[r.Intn(3)]
-		// Empty regular files in a min-chunk-size layer used to break every read of the first stream (an empty file has
-		// Offset 0 / InnerOffset 0 in the TOC and was taken for a member of the stream at offset 0 by estargz's
-		// fileReader.ReadAt: "discard of remaining -N bytes"); found by this harness, repaired by patches/C02-fix-1.diff.
-		// The db store has its own file reader, so the class is still not generated for it.
-		if c.Store != "memory" {
-			for i := range c.Files {
-				if c.Files[i].Kind == "reg" && c.Files[i].Size == 0 {
-					c.Files[i].Size = 1
-				}
-			}
-		}
+		// (Empty regular files in such a layer used to break every read of the first stream: an empty file has Offset 0 /
+		// InnerOffset 0 in the TOC and was taken for a member of the stream at offset 0 by estargz's fileReader.ReadAt,
+		// "discard of remaining -N bytes"; found by this harness, repaired by patches/C02-fix-1.diff, generated again.)
 	}
 	c.Zstd = r.Chance(1, 5)
 	switch r.Pick(6, 2, 2) {
@@ -560,6 +556,9 @@ func Main(stores []string, factories map[string]StoreFactory) {
 	}
 	for i, c := range corpus() {
 		c.Store = stores[i%len(stores)]
+		if c.MinChunk > 0 {
+			c.Store = "memory" // see gen: the db store cannot read min-chunk-size layers
+		}
 		emit(c)
 	}
 	r := hx.NewRng(ctx.Seed*0x2545F4914F6CDD1D + 0x15) // hx seeds n and n+1 give streams shifted by one case
